@@ -54,7 +54,23 @@ TABLE = [
     ("GenTiePaths", "rpylib/process/markovchain/markovchain.py: chain_over_intervals (list of lists)",
      "gen_chain_over_intervals_eq_model", "Tie_Paths", "Model.Paths.mc_jump_values / chain_running", "C15"),
 ]
-EXAMPLES = [("Tie_Drift", "gen_compute_mu_h_runs"), ("Tie_Chain", "gen_create_q_vector_runs"),
+TABLE += [
+    ("GenTieChain", "rpylib/grid/spatial.py: left_point / right_point, Coordinate1D variants (what the intensity and the coupling dispatch to)",
+     "gen_left_point_c1d_eq_int", "Tie_Chain", "GenTieChain.left_point (int variant)", "C01, C03"),
+    ("GenTieChain", "  (same)", "gen_right_point_c1d_eq_int", "Tie_Chain", "GenTieChain.right_point (int variant)", "C01, C03"),
+    ("GenTieChain", "rpylib/grid/grid.py: Grid.__getitem__ (Coordinate1D)", "gen_getitem_c1d_eq_nth", "Tie_Chain", "py_nth", "C03"),
+    ("GenTieChain", "rpylib/model/levymodel/levymodel.py: LevyModel.mass on 1-tuples", "gen_levymodel_mass_1d_eq_integrate", "Tie_Chain", "nu.integrate", "C01"),
+    ("GenTieChain", "rpylib/grid/spatial.py: left_point, CoordinateND variant (two axes)", "gen_left_point_nd2_eq_per_axis", "Tie_Chain", "left_point per axis", "C01 (2-d), C19"),
+    ("GenTieChain", "rpylib/grid/spatial.py: right_point, CoordinateND variant (clamp len(axes[0]) on both axes)", "gen_right_point_nd2_eq_first_axis_clamp", "Tie_Chain", "right_point on axis 0, first-axis clamp on axis 1", "C01 (2-d), C19"),
+    ("GenTieChain", "rpylib/grid/spatial.py: middle, tuple variant", "gen_middle_nd2_eq_per_axis", "Tie_Chain", "middle per component", "C01 (2-d), C19"),
+    ("GenTieChain2d", "rpylib/distribution/samplingfactory.py: compute_intensity_of_jumps (2-d) over the translated CoordinateND variants",
+     "gen_compute_intensity_of_jumps_2d_nd_eq_model", "Tie_Chain2d", "Model.Chain.intensity2 (when clamp_agrees)", "C01 (2-d rates), C19"),
+    ("GenTieChain2d", "  (same) = the spec's per-axis reading when clamp_agrees", "gen_compute_intensity_of_jumps_2d_nd_eq_spec_reading", "Tie_Chain2d",
+     "GenTieChain2d.compute_intensity_of_jumps_2d", "C01"),
+]
+EXAMPLES = [("Tie_Chain", "gen_right_point_nd2_first_axis_clamp_differs"), ("Tie_Chain2d", "gen_compute_intensity_of_jumps_2d_nd_clamp_refuted"),
+            ("Tie_Chain2d", "gen_compute_intensity_of_jumps_2d_nd_runs")]
+EXAMPLES += [("Tie_Drift", "gen_compute_mu_h_runs"), ("Tie_Chain", "gen_create_q_vector_runs"),
             ("Tie_Bst", "gen_sample_with_u_runs"), ("Tie_Coupling", "gen_coupling_state_runs"),
             ("Tie_Chain", "gen_compute_intensity_of_jumps_1d_runs"), ("Tie_Paths", "gen_chain_over_intervals_runs"),
             ("Tie_Chain2d", "gen_compute_intensity_of_jumps_2d_runs"), ("Tie_Alias", "gen_draw_with_u_runs")]
@@ -69,7 +85,22 @@ def tie_modules():
     return mods
 
 
-def spot_check(seed=20260930, n=40):
+GROUP_MODULES = {"mu_h": ["GenTieDrift", "GenTieChain"], "q_vector": ["GenTieChain"], "prob_right": ["GenTieCoupling", "GenTieChain"],
+                 "bst": ["GenTieBst"], "intensity_1d": ["GenTieChain"], "intensity_2d": ["GenTieChain2d", "GenTieChain"],
+                 "alias_draw": ["GenTieAlias"], "chain_over_intervals": ["GenTiePaths"],
+                 "dispatch_c1d": ["GenTieChain"], "dispatch_nd2": ["GenTieChain"], "intensity_2d_nd": ["GenTieChain2d", "GenTieChain"]}
+
+
+def selftest_spotchecks(modules, seed=20260930, n=12, name="spot_prop"):
+    """for a property's correspond(res): the spot check restricted to the groups whose generated modules are all in `modules`
+    (the property's GEN_DEPS, already regenerated and compiled by the driver), n cases per group, one coqc run (a few seconds).
+    Returns {group: (cases, [bad indices])}; the caller does res.count(...) per case and res.broke("correspondence TIE <group>", ..)
+    on a non-empty list.  The generated definitions (not the hand models) are run against the REAL functions on real
+    CTMCGrid / Coordinate objects -- this is what sees the dispatch, __init__ and caller-visible edits the translator cannot."""
+    return spot_check(seed=seed, n=n, only=set(modules), name=name)
+
+
+def spot_check(seed=20260930, n=40, only=None, name="spot"):
     """step 5: the GENERATED definitions (not the hand models) against the running Python functions on dyadic inputs,
     exact comparison by vm_compute -- guards the reading of Python ints / indices / loops by py2coq_loops itself"""
     import random
@@ -116,6 +147,8 @@ def spot_check(seed=20260930, n=40):
             return (b[0] - a[0]) * (b[1] - a[1]) * 0.25 + (b[0] * a[1]) * 0.125
     mass2_coq = "(fun a b : Q * Q => (fst b - fst a) * (snd b - snd a) * (1 # 4) + (fst b * snd a) * (1 # 8))%Q"
     mu, qv, cp, bs, ij, co, i2, al = [], [], [], [], [], [], [], []
+    d1, dn, i2n = [], [], []
+    rnd3 = random.Random(seed + 2)   # wave 8 groups: own stream
     for _ in range(n):
         m = rnd.randint(1, 5)
         left = sorted({-rnd.randint(1, 64) / 8 for _ in range(m)})
@@ -135,6 +168,21 @@ def spot_check(seed=20260930, n=40):
         axis2 = np.array(left2 + [0.0] + right2)
         grid2 = CTMCGrid(h=grid.h, origin_coordinate=o, axes=[axis, axis2])
         i2.append(common.tup([ax, L([q(x) for x in axis2]), z(o), q(Fraction(float(compute_intensity_of_jumps(Model2d, grid2))))]))
+        # wave 8: the dispatched variants on the REAL Coordinate objects (grid.origin_coordinate [+ inc])
+        inc3 = rnd3.randint(-o, len(axis) - o - 1)
+        pos = grid.origin_coordinate + inc3
+        d1.append(common.tup([ax, z(o + inc3), q(Fraction(float(grid.left_point(pos)))), q(Fraction(float(grid.right_point(pos)))),
+                              q(Fraction(float(grid[pos])))]))
+        degenerate = rnd3.random() < 0.2                                     # origin on the last point of a SHORTER first axis
+        axA = np.array(left + [0.0]) if degenerate else axis
+        rightB = sorted(rnd3.randint(1, 64) / 8 for _ in range(rnd3.randint(1, 4)))   # second axis of another length
+        axB = np.array(left2 + [0.0] + rightB)
+        gridn = CTMCGrid(h=grid.h, origin_coordinate=o, axes=[axA, axB])
+        lp, rp = gridn.left_point(gridn.origin_coordinate), gridn.right_point(gridn.origin_coordinate)
+        ml, mr = gridn.middle(lp, gridn.origin), gridn.middle(gridn.origin, rp)
+        axa, axb = L([q(x) for x in axA]), L([q(x) for x in axB])
+        dn.append(common.tup([axa, axb, z(o)] + [q(Fraction(float(v))) for v in (*lp, *rp, *ml, *mr)]))
+        i2n.append(common.tup([axa, axb, z(o), q(Fraction(float(compute_intensity_of_jumps(Model2d, gridn))))]))
         ka = rnd2.randint(1, 8)
         wa = [rnd2.randint(1, 16) for _ in range(ka)]
         sampler = AliasMethod.__new__(AliasMethod)      # the tables of the real construction, one draw with a given uniform
@@ -153,8 +201,10 @@ def spot_check(seed=20260930, n=40):
         tree = BinarySearchTree(probs, states=lambda i: i)
         u = rnd.randint(0, 1023) / 1024
         bs.append(common.tup([z(tree.K), L([q(Fraction(float(x))) for x in tree.bst]), q(u), z(int(tree.sample_with_u(u)))]))
+    used = sorted({m for g, ms in GROUP_MODULES.items() if only is None or set(ms) <= only for m in ms})
     hdr = ("From Coq Require Import ZArith QArith Qabs List Bool.\nFrom RV Require Import Base.QB Base.Corr Proofs.Tie_PyLoops "
-           "Gen.GenTieDrift Gen.GenTieChain Gen.GenTieBst Gen.GenTieCoupling Gen.GenTiePaths Gen.GenTieChain2d Gen.GenTieAlias.\n")
+           + " ".join(f"Gen.{m}" for m in used) + ".\n")
+    qq = lambda a, b: f"(andb (Qeq_bool (fst {a}) (fst {b})) (Qeq_bool (snd {a}) (snd {b})))"
     groups = [
         ("mu_h", "list Q * Z * Q", f"fun c => match c with (xs, o, e) => Qeq_bool (GenTieDrift.compute_mu_h {mass_coq} GenTieChain.middle xs o) e end", mu),
         ("q_vector", "list Q * Z * list Q", f"fun c => match c with (xs, o, e) => qlist_eqb (GenTieChain.create_q_vector {mass_coq} GenTieChain.middle xs o) e end", qv),
@@ -165,7 +215,21 @@ def spot_check(seed=20260930, n=40):
         ("alias_draw", "Z * list Q * list Z * Q * Z", "fun c => match c with (k, qs, js, u, e) => Z.eqb (GenTieAlias.draw_with_u k qs js u) e end", al),
         ("chain_over_intervals", "list (list Q) * list Q", "fun c => match c with (vs, e) => qlist_eqb (GenTiePaths.chain_over_intervals vs) e end", co),
     ]
-    bad = common.coq_bad_indices("TIE", "spot", hdr, groups)
+    groups += [
+        ("dispatch_c1d", "list Q * Z * Q * Q * Q", "fun c => match c with (xs, p, l, r, v) => andb (Qeq_bool (GenTieChain.left_point_c1d xs p) l) "
+         "(andb (Qeq_bool (GenTieChain.right_point_c1d xs p) r) (Qeq_bool (GenTieChain.getitem_c1d xs p) v)) end", d1),
+        ("dispatch_nd2", "list Q * list Q * Z * Q * Q * Q * Q * Q * Q * Q * Q",
+         "fun c => match c with (xs, ys, o, l0, l1, r0, r1, ml0, ml1, mr0, mr1) => "
+         "let lp := GenTieChain.left_point_nd2 xs ys o o in let rp := GenTieChain.right_point_nd2 xs ys o o in "
+         f"andb (andb {qq('lp', '(l0, l1)')} {qq('rp', '(r0, r1)')}) "
+         f"(andb {qq('(GenTieChain.middle_nd2 lp (0, 0))', '(ml0, ml1)')} {qq('(GenTieChain.middle_nd2 (0, 0) rp)', '(mr0, mr1)')}) end", dn),
+        ("intensity_2d_nd", "list Q * list Q * Z * Q", f"fun c => match c with (xs, ys, o, e) => Qeq_bool (GenTieChain2d.compute_intensity_of_jumps_2d_nd {mass2_coq} xs ys o) e end", i2n),
+    ]
+    if only is not None:
+        groups = [g for g in groups if set(GROUP_MODULES[g[0]]) <= only]
+    if not groups:
+        return {}
+    bad = common.coq_bad_indices("TIE", name, hdr, groups)
     return {g: (len(c), bad[g]) for (g, _, _, c) in groups}
 
 
@@ -189,9 +253,52 @@ MUTATIONS = [
     ("GenTieChain", "Tie_Chain", "rpylib/distribution/samplingfactory.py", "from itertools import product", "from itertools import combinations as product",
      "`product` is no longer itertools.product"),
 ]
+_SP, _SF, _GR, _LM = "rpylib/grid/spatial.py", "rpylib/distribution/samplingfactory.py", "rpylib/grid/grid.py", "rpylib/model/levymodel/levymodel.py"
+_MC, _AL, _BS = "rpylib/process/markovchain/markovchain.py", "rpylib/distribution/variate/alias.py", "rpylib/distribution/variate/binarysearchtree.py"
+# wave 8: the 14 edits OUTSIDE what the translator read at commit 7959957 that audit5a (X-c / X-d) found silent, + 3 of the same kinds
+AUDIT_MUTATIONS = [
+    ("GenTieChain", "Tie_Chain", _SP, "        return self.axes[0][max(0, coordinate.value - 1)]", "        return self.axes[0][max(0, coordinate.value - 2)]",
+     "A1 (me L1 = a5coup) left_point, Coordinate1D variant: -1 -> -2"),
+    ("GenTieChain", "Tie_Chain", _SP, "        return tuple(self.axes[k][max(0, c - 1)] for k, c in enumerate(coordinate))",
+     "        return tuple(self.axes[k][max(0, c - 2)] for k, c in enumerate(coordinate))", "A2 (L2) left_point, CoordinateND variant: c-1 -> c-2"),
+    ("GenTieChain", "Tie_Chain", _SP, "        return tuple(0.5 * (x + xp) for x, xp in zip(xi, xip))", "        return tuple(0.25 * (x + xp) for x, xp in zip(xi, xip))",
+     "A3 (L3) middle, tuple variant: 0.5 -> 0.25"),
+    ("GenTieChain", "Tie_Chain", _SP, "        self.origin = 0.0\n", "        self.origin = 1.0\n", "A4 (L4) CTMCGrid.__init__: origin 1.0"),
+    ("GenTieChain", "Tie_Chain", _SP, "            self.origin_coordinate = Coordinates([origin_coordinate] * dimension)",
+     "            self.origin_coordinate = Coordinates([origin_coordinate + k for k in range(dimension)])", "A5 (L5) origin coordinate differs per axis"),
+    ("GenTieChain", "Tie_Chain", _SF, "def create_q_vector(levy_measure: LevyMeasure, grid: CTMCGrid) -> np.array:",
+     "def _neg(f):\n    return lambda *a: -f(*a)\n\n\n@_neg\ndef create_q_vector(levy_measure: LevyMeasure, grid: CTMCGrid) -> np.array:",
+     "A6 (L13) a decorator that negates create_q_vector"),
+    ("GenTieChain", "Tie_Chain", _SF, "def create_vec_jump_matrix(", "def create_q_vector(levy_measure, grid):\n    return np.ones(len(grid.axes[0]))\n\n\ndef create_vec_jump_matrix(",
+     "A7 (L14) a second def of create_q_vector (the one Python binds)"),
+    ("GenTieChain", "Tie_Chain", _LM, "            return self.levy_triplet.nu.integrate(a=a[0], b=b[0])", "            return 2 * self.levy_triplet.nu.integrate(a=a[0], b=b[0])",
+     "A8 (L34) LevyModel.mass on 1-tuples doubled"),
+    ("GenTieChain", "Tie_Chain", _GR, "        return self.axes[0][coordinates.value]", "        return self.axes[0][coordinates.value - 1]",
+     "A9 Grid.__getitem__ (grid[position] of the coupling) shifted"),
+    ("GenTieCoupling", "Tie_Coupling", "rpylib/process/coupling/couplingmarkovchain.py", "    @staticmethod\n    def probability_to_right_jump", "    @classmethod\n    def probability_to_right_jump",
+     "A10 decorator of probability_to_right_jump changed"),
+    ("GenTieDrift", "Tie_Drift", _MC, "import numpy as np\n", "import numpy as np\nimport math as np\n", "A11 module alias np re-bound"),
+    ("GenTieAlias", "Tie_Alias", _AL, "import numpy as np\n", "import numpy as np\nnp = type('P', (), {'uint': staticmethod(round)})\n", "A12 np re-bound by an assignment (np.uint = round)"),
+    ("GenTieBst", "Tie_Bst", _BS, "    def sample_with_u(self, u):", "    def sample_with_u(self, u):\n        return 0\n\n    def sample_with_u(self, u):", "A13 (extra) two defs of sample_with_u in the class"),
+    ("GenTieChain", "Tie_Chain", _SP, "    @right_point.register\n    def _(self, coordinate: Coordinate1D) -> float:\n        return self.axes[0][min(len(self.axes[0]) - 1, coordinate.value + 1)]",
+     "    @right_point.register\n    def _(self, coordinate: Coordinate1D) -> float:\n        return self.axes[0][min(len(self.axes[0]) - 1, coordinate.value + 2)]",
+     "A14 (extra) right_point, Coordinate1D variant: +1 -> +2"),
+    ("GenTieChain", "Tie_Chain", _SP, "        grid_length = len(self.axes[0])  # FIXME: fixed length across all axes", "        grid_length = len(self.axes[1])",
+     "A15 (extra) right_point, CoordinateND variant clamps with the second axis"),
+]
+# edits on the CALLER side of a translated function (the translator cannot see them; the properties' correspondence groups do):
+# counted as not caught
+AUDIT_CALLER_SIDE = [
+    ("GenTieDrift", "Tie_Drift", _MC, "        model_tilde.levy_triplet.set_representation(LevyRepresentation.TILDE)", "        model_tilde.levy_triplet.set_representation(LevyRepresentation.CENTER)",
+     "B1 (a5coup) MarkovChainProcess.__init__ switches to CENTER: caller of compute_mu_h (C04 exact drift group)"),
+    ("GenTieDrift", "Tie_Drift", _MC, "        v = 0.0 if self.model.jump_of_finite_variation() else 1.0", "        v = 1.0 if self.model.jump_of_finite_variation() else 0.0",
+     "B2 (a5coup) initialisation: cut-off v inverted: caller of compute_mu_h (C04)"),
+    ("GenTieAlias", "Tie_Alias", _AL, "gen = [self._draw_with_u(u) for u in us]", "gen = [self._draw_with_u(u * u) for u in us]", "B3 (a5samp) AliasMethod.sample feeds u*u (C02 sampler stream)"),
+    ("GenTieBst", "Tie_Bst", _BS, "return np.array([self.sample_with_u(u) for u in us])", "return np.array([self.sample_with_u(1 - u) for u in us])", "B4 (a5samp) BinarySearchTree.sample feeds 1-u (C02)"),
+]
 
 
-def mutations():
+def mutations(muts=None, expect_missed=False):
     """every change of MUTATIONS applied to a private copy of the source file: the module is regenerated from the copy and the
     proof file recompiled against it in build/TIE/mut (the shared coq/Gen is not touched).  Caught = the translator refuses
     the function (fail closed) or the equality lemmas no longer compile."""
@@ -199,9 +306,10 @@ def mutations():
     import subprocess
     import py2coq
     from py2coq_specs import SPECS
-    root = common.BUILD / "TIE" / "mut"
+    root = common.BUILD / "TIE" / ("mut" if muts is None else "mut_audit")
+    muts = MUTATIONS if muts is None else muts
     missed = 0
-    for i, (mod, proof, file, old, new, what) in enumerate(MUTATIONS):
+    for i, (mod, proof, file, old, new, what) in enumerate(muts):
         d = root / f"m{i}"
         shutil.rmtree(d, ignore_errors=True)
         (d / "repo" / Path(file).parent).mkdir(parents=True)
@@ -215,7 +323,14 @@ def mutations():
         for f in {spec["file"]} | {fn["file"] for fn in spec["funcs"] if "file" in fn}:
             (d / "repo" / Path(f).parent).mkdir(parents=True, exist_ok=True)
             shutil.copy(common.REPO / f, d / "repo" / f)
+        (d / "repo" / Path(file).parent).mkdir(parents=True, exist_ok=True)
         (d / "repo" / file).write_text(text.replace(old, new))
+        try:
+            compile(text.replace(old, new), file, "exec")            # the mutant is valid Python
+        except SyntaxError as e:
+            print(f"  mutation {i}: the mutant is not valid Python: {e}")
+            missed += 1
+            continue
         try:
             gen = py2coq.generate_module(d / "repo", mod, spec)
         except py2coq.Unsupported as e:
@@ -238,8 +353,8 @@ def mutations():
         if rc == 0:
             print(f"  mutation {i} ({what}): MISSED -- the lemmas still hold of the changed source")
             missed += 1
-    print(f"tie_selftest --mutations: {len(MUTATIONS) - missed}/{len(MUTATIONS)} caught")
-    return 1 if missed else 0
+    print(f"tie_selftest --mutations: {len(muts) - missed}/{len(muts)} caught" + (" (caller-side list: silence expected)" if expect_missed else ""))
+    return 0 if expect_missed else (1 if missed else 0)
 
 
 SYNTHETIC = '''
@@ -303,7 +418,12 @@ def synthetic():
 
 def main():
     if "--mutations" in sys.argv:
-        return mutations()
+        rc = mutations()
+        print("-- audit5a: edits outside what the translator read at 7959957")
+        rc = mutations(AUDIT_MUTATIONS) or rc
+        print("-- audit5a: caller-side edits (not visible to a translator of the callee)")
+        mutations(AUDIT_CALLER_SIDE, expect_missed=True)
+        return rc
     if "--table" in sys.argv:
         print("| generated module | source function | equality lemma | hand model | property |\n|---|---|---|---|---|")
         for mod, fun, lem, f, model, prop in TABLE:
